@@ -218,6 +218,7 @@ def _generic(args, cfg, prop, tier, t0, known, open_f, quarantine, run_dir, scra
                    "--worker", str(k), "--out", out, "--scratch", os.path.join(scratch, "%s-%d" % (mname, k))]
             if quarantine:
                 cmd += ["--quarantine", ",".join(quarantine)]
+            cmd += ["--opt", "nworkers=%d" % nworkers]
             for kk, vv in t.get("opt", {}).items():
                 cmd += ["--opt", "%s=%s" % (kk, vv)]
             worker_procs.append((mname, k, out, cmd))
@@ -253,6 +254,7 @@ def _generic(args, cfg, prop, tier, t0, known, open_f, quarantine, run_dir, scra
         running = still
 
     total_eval = 0
+    enum_nt = 0
     total_cases = 0
     labels = {}
     excluded = {}
@@ -270,6 +272,7 @@ def _generic(args, cfg, prop, tier, t0, known, open_f, quarantine, run_dir, scra
             continue
         st = json.load(open(js))
         total_eval += st["evaluations"]
+        enum_nt += st.get("enum_nontrivial", 0)
         total_cases += st["cases"]
         pm = per_mode.setdefault(mname, {"evaluations": 0, "cases": 0, "labels": {}})
         pm["evaluations"] += st["evaluations"]
@@ -299,7 +302,7 @@ def _generic(args, cfg, prop, tier, t0, known, open_f, quarantine, run_dir, scra
                 violations.append((fpath, res))
             else:
                 labels["flaky_discarded"] = labels.get("flaky_discarded", 0) + 1
-    distinct = len(merge_fp(fp_files))
+    distinct = len(merge_fp(fp_files)) + enum_nt
 
     # ---------------- classify violations against known findings
     final = []
